@@ -119,6 +119,37 @@ def run(P, R, tier):
         if '.total_bounds' in src and 'GeometryDtype' in src:
             task = g
     if task is None:
+        for g in w2.nested.values():
+            if any(isinstance(x, ast.Attribute) and x.attr == 'total_bounds' for x in ast.walk(g.node)):
+                task = g
+    # extents are merged NaN-aware: a geometry column that is entirely missing in one sub-part (or partition) has NaN bounds there.  The builtin min / max keep
+    # whichever operand comes first when the other is NaN, ndarray.min / max and np.minimum / np.maximum propagate NaN: the union of the valid extents needs
+    # np.fmin / np.fmax / np.nanmin / np.nanmax
+    producers = {g.name for g in w2.nested.values() if any(isinstance(x, ast.Attribute) and x.attr == 'total_bounds' for x in ast.walk(g.node))}
+    for h in [w2] + list(w2.nested.values()):
+        for c in astq.own_calls(h):
+            fn = norm(c.func)
+            unsafe = (isinstance(c.func, ast.Name) and c.func.id in ('min', 'max') and len(c.args) >= 2) or fn in ('np.minimum', 'np.maximum', 'np.min', 'np.max', 'np.amin', 'np.amax') \
+                or (isinstance(c.func, ast.Attribute) and c.func.attr in ('min', 'max') and not c.args and not fn.startswith(('np.', 'numpy.')))
+            if not unsafe:
+                continue
+            operands = list(c.args) + ([c.func.value] if isinstance(c.func, ast.Attribute) and not c.args else [])
+            tainted = False
+            for a_ in operands:
+                if any(isinstance(x, ast.Attribute) and x.attr == 'total_bounds' for x in ast.walk(a_)):
+                    tainted = True
+                srcs = astq.sources(h, a_)
+                if srcs & producers:
+                    tainted = True
+                for nm in srcs:
+                    for d_ in astq.assignments(h, nm):
+                        v_ = d_[1].iter if isinstance(d_[1], (ast.For, ast.comprehension)) else d_[1]
+                        if isinstance(v_, ast.AST) and any(isinstance(x, ast.Attribute) and x.attr == 'total_bounds' for x in ast.walk(v_)):
+                            tainted = True
+            if tainted:
+                R.bad('C12.a', h, c, f'`{norm(c)[:70]}` merges partition extents with a reduction that is not NaN-aware: where one operand is NaN (a column without valid geometries in that piece) the result '
+                                     'is NaN or depends on the order of the pieces, so the recorded extent of a partition that holds valid rows can be NaN (never selected by bounds= / cx) ', construct=f'{h.name}: NaN-unaware merge of extents')
+    if task is None:
         raise AnalysisError('C12.a: the consolidation task collecting total_bounds was not found')
     okt = False
     for lp in astq.own_nodes(task, ast.For):
@@ -388,34 +419,8 @@ def run(P, R, tier):
     R.floor('C12.g', 'cache propagation sites in __getitem__', nprop, 2)
 
     # ---------------------------------------------------------------- C12.h nothing on the read path is memoised
-    # read_parquet_dask must report what the dataset holds *now*: a function that reads through the filesystem and is
-    # memoised by its arguments (functools cache decorators, or a module-level dict consulted before reading) returns
-    # the previous dataset's metadata after an overwrite -- no writer-side invalidation can cover other processes.
-    def reads_storage(c, g):
-        if astq.fs_call(c, {'open', 'cat', 'cat_file', 'read_bytes', 'get', 'expand_path', 'ls', 'listdir', 'glob', 'find', 'walk', 'exists', 'isdir', 'isfile', 'info'}):
-            return True          # listings and existence checks go stale just like contents
-        r_ = P.resolve_call(g, c)
-        return bool(r_ and r_[0] == 'ext' and r_[1].split('.')[-1] in ('read_metadata', 'read_table', 'ParquetDataset', 'read_schema', 'ParquetFile'))
-    nread = 0
-    for m in P.mods.values():
-        globals_mut = {t.id for a in m.tree.body if isinstance(a, ast.Assign) and isinstance(a.value, (ast.Dict, ast.Call))
-                       and (isinstance(a.value, ast.Dict) or norm(a.value.func) in ('dict', 'OrderedDict', 'WeakValueDictionary', 'weakref.WeakValueDictionary'))
-                       for t in a.targets if isinstance(t, ast.Name)}
-        for g in m.funcs.values():
-            if isinstance(g.node, ast.Lambda) or not astq.performs(P, g, reads_storage, depth=3):
-                continue
-            nread += 1
-            memo = [d for d in g.tags.get('ext', []) if 'cache' in d.split('.')[-1].lower() or d.split('.')[-1] in ('memoize', 'memoized')]
-            R.check(not memo, 'C12.h', g, None, 'a function that reads the dataset from storage is not memoised',
-                    f'`{g.name}` reads from storage but is memoised by {memo}: after the dataset is rewritten the reader reports the previous metadata/bounds',
-                    construct=f'memoised storage read {g.name}')
-            hits = [n for n in walk_own(g.node) if isinstance(n, ast.Return) and n.value is not None
-                    and any(isinstance(x, ast.Subscript) and isinstance(x.value, ast.Name) and x.value.id in globals_mut and x.value.id not in g.params
-                            or (isinstance(x, ast.Call) and isinstance(x.func, ast.Attribute) and x.func.attr == 'get' and isinstance(x.func.value, ast.Name) and x.func.value.id in globals_mut)
-                            for x in ast.walk(n.value))]
-            R.check(not hits, 'C12.h', g, hits[0] if hits else None, 'a function that reads the dataset from storage does not answer from a module-level table',
-                    f'`{g.name}` answers from a module-level table instead of storage: stale after the dataset is rewritten', construct=f'table-cached storage read {g.name}')
-    R.floor('C12.h', 'functions that read dataset files', nread, 3)
+    from rules import common as _cmh
+    _cmh.read_path_not_memoised(P, R, 'C12.h')
 
 
 def _enclosing_if_test(node):
